@@ -1,11 +1,11 @@
 package main
 
 import (
-	"runtime/debug"
 	"flag"
 	"fmt"
 	"os"
 	"path/filepath"
+	"runtime/debug"
 	"sort"
 	"strconv"
 	"strings"
